@@ -12,8 +12,10 @@ import (
 
 func init() {
 	register(&Property{
-		ID:  "C14",
-		Gen: genC14,
+		ID:    "C14",
+		Files: []string{"cor.go", "monadIO.go"},
+		Funcs: []string{"CorDef", "CorNew"},
+		Gen:   genC14,
 		Rule: "a target coroutine (generator shape fixed / echo / accumulate) performing exactly as many YieldRefs as the 1..8 callers issue YieldFrom requests (plus one for StartWithVal), callers are started coroutines or DoNotation effects, " +
 			"optionally mixed with YieldFromIO over a MonadIO observed on a handler; oracles over the logs of both sides: every request taken exactly once, its caller gets the value yielded by the YieldRef that took it, " +
 			"per-caller order, StartWithVal value reaches the first YieldRef, DoNotation/YieldFromIO results, IsStarted/IsDone, nobody left blocked; non-trivial = >=2 callers with requests in flight at once; distinct = distinct context-switch signature",
